@@ -84,6 +84,14 @@ Theorem C05_minibatches_partition : forall b N (perm : list nat),
 Proof. exact minibatches_partition. Qed.
 Print Assumptions C05_minibatches_partition.
 
+(* the same for the loop assembled from the regenerated guard `start_idx < buffer_size * n_envs` and
+   advance `start_idx += batch_size` of get(): a changed guard or advance breaks this Qed *)
+Theorem C05_get_loop_from_fragments_partitions : forall (b T n : nat) (idx : list nat),
+  1 <= b -> length idx = T * n ->
+  concat (get_loop_gen (T * n) 0%Z (Z.of_nat b) (Z.of_nat T) (Z.of_nat n) idx) = idx.
+Proof. exact (@get_loop_gen_partition nat). Qed.
+Print Assumptions C05_get_loop_from_fragments_partitions.
+
 Theorem C05_minibatch_sizes : forall (b : nat) (idx : list nat),
   1 <= b -> Forall (fun mb => 1 <= length mb <= b) (minibatches b idx).
 Proof. exact (@minibatch_sizes nat). Qed.
